@@ -1451,8 +1451,14 @@ hdf_read_attrs(XDR *xdrs, NC *handle, int32 vg)
                     HGOTO_FAIL(NULL);
 
                 if (type == NC_CHAR) {
-                    if ((attr_size = VFfieldorder(vs, 0)) == FAIL)
+                    int32 order;
+
+                    if ((order = VFfieldorder(vs, 0)) == FAIL)
                         HGOTO_FAIL(NULL);
+
+                    /* DFNT_CHAR values are stored as one record of 'order' characters,
+                       the other character types as 'attr_size' records of one */
+                    attr_size *= order;
 
                     ((char *)values)[attr_size] = '\0';
                 }
